@@ -3,8 +3,6 @@
 pub open spec fn sb(s: &str) -> Seq<u8> { s.spec_bytes() }
 
 // ---- AbsPath as seen from this unit (its methods are verified in unit U9)
-/// `base.join(ext)`, or `ext` itself when it is absolute (Path::join semantics)
-pub uninterp spec fn join_v(base: PathV, ext: PathV) -> PathV;
 /// result of canonicalize
 pub uninterp spec fn canon(p: PathV) -> PathV;
 /// the parent directory of the target exists and is writable, i.e. creating/resolving can succeed
@@ -97,6 +95,16 @@ impl IOCtx {
     pub closed spec fn line_budget_ok(&self) -> bool { self.cur_line + h_lines(&self.input).len() <= usize::MAX }
     /// the source lines not yet read (std `BufRead::lines`: terminators stripped)
     pub closed spec fn pending_lines(&self) -> Seq<Seq<char>> { h_lines(&self.input) }
+}
+
+/// policy (C10) for temp directives of a file whose directory is `wd`: outside clean mode a temp target may be created
+/// and written, in clean mode it may be removed; targets are always resolved against `wd`.  WHICH names are used is
+/// fixed by execute_directive_temp's contract: exactly the first argument of the temp directive being executed.
+pub open spec fn temp_policy_ok(wd: PathV, clean: bool) -> bool {
+    forall|x: Seq<char>| #![trigger path_of_chars(x)] {
+        &&& (!clean ==> allowed_create(join_v(wd, path_of_chars(x))) && allowed_write(canon(join_v(wd, path_of_chars(x)))))
+        &&& (clean ==> allowed_remove(canon(join_v(wd, path_of_chars(x)))))
+    }
 }
 
 /// one more chunk written through the sink (the facts are write_output's postcondition)
